@@ -26,6 +26,7 @@ EGS = [
     {"svc": 0x1111, "inst": 1, "major": 1, "eg": 2, "sockname": ["10.0.0.1", 4000], "proto": "TCP"},
     {"svc": 0x2222, "inst": 5, "major": 2, "eg": 1, "sockname": ["fd00::1", 4001, 0, 0], "proto": "UDP"},
     {"svc": 0x1111, "inst": 2, "major": 1, "eg": 1, "sockname": ["10.0.0.1", 4002], "proto": "UDP"},
+    {"svc": 0x1111, "inst": 1, "major": 1, "eg": 1, "sockname": ["fd00::1", 4000, 0, 0], "proto": "UDP"},  # the first eventgroup again, on another local endpoint
 ]
 OFFS = [-1e-4, -RES / 4, 0.0, RES / 4, 1e-4]
 
